@@ -97,39 +97,6 @@ class PathStrings(StringCollector):
         select is executed (likewise the operands of `and` / `or` behind one that decides the result)"""
         return super()._expr(_executed(node, env), cls, env, out, depth, f, defining)
 
-
-class _Executed(ast.NodeTransformer):
-    def __init__(self, env: dict[str, bool]) -> None:
-        self.env = env
-        self.changed = False
-
-    def visit_IfExp(self, n: ast.IfExp) -> ast.AST:
-        v = _tv(n.test, self.env)
-        if v is None:
-            return self.generic_visit(n)
-        self.changed = True
-        return ast.Tuple(elts=[self.visit(n.test), self.visit(n.body if v else n.orelse)], ctx=ast.Load())
-
-    def visit_BoolOp(self, n: ast.BoolOp) -> ast.AST:
-        absorbing = isinstance(n.op, ast.Or)
-        for i, v in enumerate(n.values[:-1]):
-            if _tv(v, self.env) is absorbing:  # the operands behind it are not evaluated
-                self.changed = True
-                return ast.Tuple(elts=[self.visit(x) for x in n.values[:i + 1]], ctx=ast.Load())
-        return self.generic_visit(n)
-
-
-def _executed(node: ast.AST, env: dict[str, bool]) -> ast.AST:
-    """the expression / statement without the operands that the known atoms leave unevaluated (a copy; the node itself where nothing is
-    decided)"""
-    if not any(isinstance(n, (ast.IfExp, ast.BoolOp)) for n in ast.walk(node)):
-        return node
-    import copy
-
-    tr = _Executed(env)
-    new = tr.visit(copy.deepcopy(node))
-    return new if tr.changed else node
-
     def _block(self, body: list[ast.stmt], cls: Any, env: dict[str, bool], out: set[str], depth: int, f: Any, defining: Any) -> bool:
         for st in body:
             if isinstance(st, ast.Expr) and isinstance(st.value, ast.Constant):
@@ -172,6 +139,39 @@ def _executed(node: ast.AST, env: dict[str, bool]) -> ast.AST:
             if val is not None:
                 env[tgts[0].id] = val
         return False
+
+
+class _Executed(ast.NodeTransformer):
+    def __init__(self, env: dict[str, bool]) -> None:
+        self.env = env
+        self.changed = False
+
+    def visit_IfExp(self, n: ast.IfExp) -> ast.AST:
+        v = _tv(n.test, self.env)
+        if v is None:
+            return self.generic_visit(n)
+        self.changed = True
+        return ast.Tuple(elts=[self.visit(n.test), self.visit(n.body if v else n.orelse)], ctx=ast.Load())
+
+    def visit_BoolOp(self, n: ast.BoolOp) -> ast.AST:
+        absorbing = isinstance(n.op, ast.Or)
+        for i, v in enumerate(n.values[:-1]):
+            if _tv(v, self.env) is absorbing:  # the operands behind it are not evaluated
+                self.changed = True
+                return ast.Tuple(elts=[self.visit(x) for x in n.values[:i + 1]], ctx=ast.Load())
+        return self.generic_visit(n)
+
+
+def _executed(node: ast.AST, env: dict[str, bool]) -> ast.AST:
+    """the expression / statement without the operands that the known atoms leave unevaluated (a copy; the node itself where nothing is
+    decided)"""
+    if not any(isinstance(n, (ast.IfExp, ast.BoolOp)) for n in ast.walk(node)):
+        return node
+    import copy
+
+    tr = _Executed(env)
+    new = tr.visit(copy.deepcopy(node))
+    return new if tr.changed else node
 
 
 def _forget(env: dict[str, bool], names: set[str]) -> None:
